@@ -72,6 +72,12 @@ CLAIMED["C03"] = dict(
    technique="symbolic execution of parser + VM on symbolic tail bytes; relational (two-run) harness",
    ref="DESIGN.md §5 C03")
 
+CLAIMED["C02"] = dict(
+   text="Differential bounded model checking against a definitional semantics executed by the same engine on the same symbols: (a) sixteen binary operators x {int, float} operand kinds with 64-bit / Float64 payloads as solver symbols and IgnoreDiv0 both ways, evaluated through the real parser and VM and compared with a reference written from the language guide (value, result type, or 'error prescribed'); (b) 40 programs covering precedence, grouping, short-circuit operators, ternary / multi-arm conditions, if / else-if, while with break / continue, functions and scoping, computed values, aliasing, negative indices, slices and slice assignment, container equality, whitespace variants and an erroring statement, with integer variables as 64-bit symbols and a reference closure each, evaluated twice on the same VM.",
+   note="Power (**) is uninterpreted; programs are enumerated (the solver quantifies over the variable values, not over program shapes); dice are outside (C04/C15). Float equality modulo NaN payload. Known defects fixed: dict equality after enumeration.",
+   technique="differential symbolic execution (implementation vs reference) + SMT (BV + FP)",
+   ref="DESIGN.md §5 C02")
+
 NA = {
 }
 
